@@ -406,4 +406,10 @@ func (group *Group) delIn() {
 	group.httptsGopCache.Clear()
 	group.sdpCtx = nil
 	group.patpmt = nil
+
+	// 注意，输入流的编码信息也需要清除，否则下一个同名输入流（比如只有音频）的订阅者会按上一个流的信息等待视频关键帧
+	group.stat.AudioCodec = ""
+	group.stat.VideoCodec = ""
+	group.stat.VideoWidth = 0
+	group.stat.VideoHeight = 0
 }
